@@ -805,6 +805,16 @@ class CallMixin:
                 return k(st, h.fields[name])
             if name not in h.fields and len(args) == 3:
                 return k(st, args[2])
+            if name in h.fields and name in h.present:        # a dynamic attribute: there or not, per its presence bit
+                has = h.present[name]
+                if len(args) == 2:
+                    return self.guard(st, has, 'AttributeError', 'getattr', node, lambda s: k(s, s.heap[o.rid].fields[name]))
+                if isinstance(args[2], VNone) and not isinstance(h.fields[name], (VOpt, VRef)):
+                    return k(st, VOpt(z3.Not(has), h.fields[name]))
+                out = []
+                for s2, yes in self.branch(st, has, 'getattr-%s@%s' % (name, node.lineno)):
+                    out += k(s2, s2.heap[o.rid].fields[name] if yes else args[2])
+                return out
         if name is None or not isinstance(o, VObj):
             raise Unsupported("getattr(%r, %r) (line %s)" % (o, args[1], node.lineno))
         t = self.objattrs.get((o.sort, name))
